@@ -401,6 +401,10 @@ def run(ctx):
                 r4.check(skipped or not lacks, f"K12 {fi.qualname}:{var}.xml_instance()", "children without an instance node (ExternalInstance) are skipped before xml_instance() is called on them", fi.loc(c),
                          why_fail="an xml-external / csv-external row in this section raises AttributeError: 'ExternalInstance' object has no attribute 'xml_instance'")
     r4.check(n_k12 >= 2, "K12 census", f"{n_k12} traversals of self.children that build instance nodes examined", "pyxform/section.py")
+    # K13: a call result unpacked into several names must be iterable (a package class without __iter__ is not)
+    from ..unpack import unpack_obligations
+    n_k13 = unpack_obligations(ctx, r4, "C17.R4", label="K13")
+    ctx.count("K13_unpack_sites", n_k13)
     # K2: iteration over a possibly-None slot that another site guards
     guarded, unguarded = [], []
     for fi in repo.all_functions():
